@@ -8,7 +8,8 @@
    Strings are ASCII byte strings.  [MAXSEG] = MAX_DYNAMIC_SEGMENTS of resource.rs. *)
 From AV Require Import Lib.Base Gen.Consts.
 From AV Require Import Router.Pattern Router.Match Router.Path Router.ResourceDef Router.Quoter
-  Router.Spec Router.MatchProofs Router.ResourceProofs Router.ResourceProofs2 Router.QuoterProofs.
+  Router.Spec Router.MatchProofs Router.ResourceProofs Router.ResourceProofs2 Router.QuoterProofs
+  Router.Utf8 Router.ResourceDefU Router.ResourceProofsU.
 
 Definition MAXSEG := ROUTER_MAX_DYNAMIC_SEGMENTS.
 
@@ -313,6 +314,77 @@ Proof.
   intros prot q x a b H I N37 NH. unfold quoter_new in H.
   destruct (forallb (fun ch => ch <? 128) prot) eqn:E; [|discriminate]. inversion H; subst q.
   rewrite !(requote_full_spec prot E). apply decode_splits_at_protected; assumption.
+Qed.
+
+(* --------------------------------------------------------- 7. all valid UTF-8 paths (no ASCII restriction) *)
+(* A `&str` is a sequence of Unicode scalar values; the regex consumes whole characters, offsets
+   are bytes (Router/Utf8.v, Router/ResourceDefU.v: [p_path] holds scalars, [p_skip] and the
+   segment offsets are byte offsets obtained through [utf8_len]).  The matcher theorems of
+   section 2 (C10_is_match_iff_language, C10_captures_sound/_complete, C10_leftmost_greedy) and
+   the purely pattern-level ones (C10_default_segment, C10_build_from_match, decomp_unique) are
+   stated over [list N] and never use that elements are below 256: they hold verbatim for scalar
+   strings.  Below: the Path-level statements redone with byte offsets.
+   [pathu_ok pth i]: skip = byte offset of character index i, path shorter than 2^16 BYTES. *)
+Theorem C10_utf8_three_ways_agree : forall ps is_prefix rd pth i,
+  wf_patterns ps -> construct MAXSEG ps is_prefix = Val rd -> pathu_ok pth i ->
+  exists (o : option N) (pth' : path),
+    let s := skipn i (p_path pth) in
+    unprocessed_u pth = Val s /\
+    find_match_u rd s = Val o /\
+    is_match_u rd s = isSome o /\
+    capture_match_info_u MAXSEG rd pth = Val (isSome o, pth') /\
+    match o with
+    | Some nb => exists n, (n <= length s)%nat /\ nb = N.of_nat (boff s n) /\ pathu_ok pth' (i + n) /\
+                           p_path pth' = p_path pth /\ p_skip pth' = p_skip pth + nb
+    | None => pth' = pth
+    end.
+Proof.
+  intros ps pre rd pth i WF C OK.
+  destruct (three_ways_agree_u MAXSEG ps pre rd pth i WF C OK) as (o & pth' & A & B & D & E).
+  exists o, pth'. cbv zeta. split; [exact (unprocessed_u_ok pth i OK)|].
+  split; [exact A|]. split; [exact B|]. split; [exact D | exact E].
+Qed.
+
+(* captured values are sequences of WHOLE characters: `Path::iter` after a successful capture
+   yields the earlier parameters followed by the words of a decomposition of the matched
+   characters, each in its segment's language read over scalar values (so `[^/]+` can never
+   return half of a multi-byte character), and the Path stays on a character boundary *)
+Theorem C10_utf8_captures_whole_characters : forall is_prefix p rd pth i pth',
+  wf_pattern p -> is_static p = false -> construct MAXSEG (Single p) is_prefix = Val rd -> pathu_ok pth i ->
+  capture_match_info_u MAXSEG rd pth = Val (true, pth') ->
+  exists n ws,
+    Matches is_prefix p (skipn i (p_path pth)) n ws /\ pathu_ok pth' (i + n) /\
+    path_iter_u pth' = rbind (path_iter_u pth) (fun old => Val (old ++ values (p_segs p) ws)) /\
+    unprocessed_u pth' = Val (skipn n (skipn i (p_path pth))).
+Proof.
+  intros pre p rd pth i pth' WF NS C OK H.
+  destruct (capture_single_u MAXSEG pre p rd pth i pth' WF NS C OK H) as (n & ws & (M & _) & A & B & D).
+  exists n, ws. split; [exact M|]. split; [exact A|]. split; [exact B | exact D].
+Qed.
+
+Theorem C10_utf8_new_path_ok : forall s, N.of_nat (blen s) <= u16_max -> pathu_ok (path_new s) 0.
+Proof. exact pathu_ok_new. Qed.
+
+(* on ASCII strings byte offsets are character indices (the two models coincide; the
+   correspondence driver additionally evaluates both on every ASCII case and compares) *)
+Theorem C10_utf8_ascii_offsets : forall s i,
+  forallb (fun c => c <? 128) s = true -> (i <= length s)%nat -> boff s i = i /\ blen s = length s.
+Proof. intros s i H L. split; [apply boff_ascii; assumption | apply blen_ascii; exact H]. Qed.
+
+(* "/{a}/x" on "/€¡/x" (U+20AC, U+00A1: 3 + 2 bytes): a = "€¡", 8 bytes consumed *)
+Example C10_example_utf8 :
+  let p := mkPattern [SConst [47]; SVar [97] default_re; SConst [47; 120]] false in
+  let s := [47; 8364; 161; 47; 120] in
+  exists rd pth', construct MAXSEG (Single p) false = Val rd /\ pathu_ok (path_new s) 0 /\
+    find_match_u rd s = Val (Some 8) /\
+    capture_match_info_u MAXSEG rd (path_new s) = Val (true, pth') /\
+    path_iter_u pth' = Val [([97], [8364; 161])] /\ p_skip pth' = 8 /\
+    p_segments pth' = [([97], PISegment 1 6)].
+Proof.
+  cbv zeta. eexists. eexists. split; [vm_compute; reflexivity|].
+  split; [split; [cbn; lia | split; [reflexivity | vm_compute; discriminate]]|].
+  split; [vm_compute; reflexivity|]. split; [vm_compute; reflexivity|].
+  split; [vm_compute; reflexivity|]. split; reflexivity.
 Qed.
 
 (* ------------------------------------------------------------------------------ non-vacuity *)
